@@ -356,11 +356,16 @@ def run_impl(case):
 # ---------------------------------------------------------------- rendering
 class _Ctx:
     """every distinct string of a case is written (and type-checked by Coq) once, bound by a let"""
-    def __init__(self):
+    def __init__(self, enc=False):
         self.vars = {}
         self.binds = []
+        self.enc = enc
 
     def s(self, text):
+        if self.enc:
+            # injective ASCII spelling of arbitrary (Unicode) names: the object-level checkers only compare
+            # names and look for blanks / quote / scanner characters, all of which stay as they are
+            text = "".join(c if (32 <= ord(c) < 127 and c != "\\") else "\\%06x" % ord(c) for c in text)
         if text not in self.vars:
             v = "s%d" % len(self.vars)
             self.vars[text] = v
@@ -520,6 +525,8 @@ def model_expr(case, res, rundir):
 # =====================================================================================
 # Object-level cases: Tree OBJECTS, odd-but-legal taxon names, histories on one object
 # =====================================================================================
+import unicodedata as _ud
+
 ODD_POOLS = [
     # blanks: written unquoted with "_" for the blank; distances must not care
     ["San Juan", "b", "New York", "d", "e", "x y z", "Rio", "a b", "Tok Pisin"],
@@ -529,6 +536,10 @@ ODD_POOLS = [
     ["Miao,Hmu", "b", "c", "Yi,Nuosu", "e", "p:q", "s;t", "x(y)", "it's"],
     ["[z]", "b", 'd"q', "d", "a'b", "f", "San Juan,x", "h", "A-1"],
     ["a", "b", "c", "d", "e", "f", "g", "h", "i"],
+    # non-ASCII names, decomposed (NFD) and composed (NFC) spellings; the two spellings of one word are two taxa
+    [_ud.normalize("NFD", "S\u00e3o"), _ud.normalize("NFD", "Y\u00e9li"), "Bora", "Muinane",
+     _ud.normalize("NFD", "\u00d1ga"), "S\u00e3o", "K\u00f6lsch", "\u65e5\u672c\u8a9e",
+     "\u0395\u03bb\u03bb\u03b7\u03bd\u03b9\u03ba\u03ac"],
 ]
 TRIGGER = set("[]'\"(),:;_")
 
@@ -755,7 +766,7 @@ class OBJ:
 
     @staticmethod
     def render(case, res):
-        cx = _Ctx()
+        cx = _Ctx(enc=True)
         ea, eb, pa, pb = expected_state(case)
         f = ["(%s)" % cx.tree(t) for t in (ea, eb, pa, pb)]
         f += [L.b(OBJ.lift_q), L.b(OBJ.lift_s), L.b(OBJ.lift_b),
@@ -837,6 +848,8 @@ class OBJ:
             out.append("names:quoted")
         if any(c in "(),:;" for x in ls for c in x):
             out.append("names:scanner-chars")
+        if any(ord(c) > 127 for x in ls for c in x):
+            out.append("names:non-ascii")
         out.append("rf=raised" if res["ab"][1] is None else "rf=value")
         return out
 
@@ -852,7 +865,7 @@ def gen_scanner_case(rng):
     if c < 0.35:
         n = rng.randint(1, 14)
         return {"text": "".join(rng.choice(SC_ALPHA) for _ in range(n))}
-    pool = rng.choice(ODD_POOLS + NAME_POOLS)
+    pool = rng.choice(ODD_POOLS[:-1] + NAME_POOLS)      # the scanner model is 7-bit
     n = rng.choice([3, 4, 5, 6, 7])
     t = add_lengths(rng, random_topology(rng, rng.sample(pool, n), rng.choice([0.2, 0.5])),
                     rng.choice(["none", "all", "some"]))
